@@ -1,6 +1,16 @@
 """C04 implementation driver.
-kinds: 'driver' (as C02), 'sweepmass' (one kernel call via ctypes: returns output for the mass balance),
-       'inject' (_inject_mutations_dD), 'reject' (frozen + migration must raise), 'remove' (remove_pop / filter_pops)."""
+kinds: 'driver' (one_pop..five_pops; as C02 but the density and the grid are handed over in the memory layout named by the case),
+       'sweepmass' (one kernel call via ctypes: returns output for the mass balance; raw-pointer interface, no layouts),
+       'inject' (_inject_mutations_dD), 'reject' (frozen + migration must raise), 'remove' (remove_pop / filter_pops),
+       'pipe' (in-library pipelines: a list of reorder_pops / remove_pop / filter_pops / integrate steps applied in sequence).
+
+Memory layouts.  A case may carry 'layout' (for the density) and 'xlayout' (for the grid):
+    {'order': [logical axes from slowest to fastest varying in memory], 'neg': [axes stored backwards],
+     'step': [axes stored with stride 2 elements], 'pad': bool (window of a larger array)}
+`relayout` builds an array of the SAME shape and the SAME logical content (a[i,j,..] unchanged) with that layout, as a view into a
+larger buffer whose other entries hold garbage (finite, ~1e2..2e2), so that code addressing the raw buffer instead of the array
+reads wrong numbers rather than unmapped memory.  Everything returned to the harness is read through numpy indexing
+(logical content, C-order flattening)."""
 import sys, os, json, warnings
 warnings.filterwarnings('ignore')
 sys.path.insert(0, os.path.dirname(os.path.abspath(__file__)))
@@ -10,10 +20,100 @@ import dadi
 from dadi import Integration, PhiManip
 import c02_impl
 
+def relayout(arr, lay):
+    arr = np.asarray(arr, dtype=float)
+    if not lay:
+        return np.ascontiguousarray(arr).copy()
+    d = arr.ndim
+    order = list(lay.get('order') or range(d))
+    assert sorted(order) == list(range(d))
+    neg = set(lay.get('neg') or []); step = set(lay.get('step') or []); pad = 1 if lay.get('pad') else 0
+    if lay.get('fortran'):          # numpy's own Fortran-ordered allocation (owns its data, F_CONTIGUOUS)
+        out = np.asfortranarray(arr).copy(order='F')
+        assert out.flags['F_CONTIGUOUS'] and (d < 2 or not out.flags['C_CONTIGUOUS'])
+        return out
+    alloc = [arr.shape[a] * (2 if a in step else 1) + 2 * pad for a in range(d)]
+    memshape = [alloc[a] for a in order]
+    tot = int(np.prod(memshape))
+    buf = 100.0 + 100.0 * ((np.arange(3 * tot, dtype=float) * 0.6180339887498949) % 1.0)
+    big_mem = buf.reshape([3] + memshape)[1]
+    inv = [order.index(a) for a in range(d)]
+    bigL = big_mem.transpose(inv)                     # logical axis a = memory axis inv[a]
+    sl = []
+    for a in range(d):
+        n = arr.shape[a]; st = 2 if a in step else 1; s0 = pad
+        if a in neg:
+            last = s0 + (n - 1) * st
+            stop = s0 - st
+            sl.append(slice(last, stop if stop >= 0 else None, -st))
+        else:
+            sl.append(slice(s0, s0 + n * st, st))
+    view = bigL[tuple(sl)]
+    assert view.shape == arr.shape, (view.shape, arr.shape)
+    view[...] = arr
+    assert np.array_equal(view, arr)
+    return view
+
+def flat(a):
+    a = np.asarray(a)
+    return [float(t) for t in a.reshape(-1)] if a.ndim else [float(a)]
+
+def integrate(phi, xx, c):
+    """c: driver fields (pops, theta0, T, tf, delj, as_func, theta_slope) -- same conventions as c02_impl.driver"""
+    d = phi.ndim
+    Integration.timescale_factor = c['tf']
+    Integration.use_delj_trick = bool(c['delj'])
+    pops = c['pops']
+    assert len(pops) == d
+    fn = c['as_func']          # None: constants; 'const': functions returning the constant; 'lin': nu(t)=nu+s*t
+    def par(v, s=0.0):
+        if fn is None:
+            return v
+        if fn == 'const':
+            return (lambda t, v=v: v)
+        return (lambda t, v=v, s=s: v + s * t)
+    names = '12345'
+    try:
+        if d == 1:
+            p = pops[0]
+            kw = dict(nu=par(p['nu'], p.get('nu_slope', 0.0)), gamma=par(p['gamma']), h=par(p['h']), theta0=par(c['theta0'], c.get('theta_slope', 0.0)), beta=par(p.get('beta', 1.0)))
+            if p.get('frozen'):
+                kw['frozen'] = True
+            res = Integration.one_pop(phi, xx, c['T'], **kw)
+        else:
+            kw = {}
+            for i, p in enumerate(pops):
+                kw['nu' + names[i]] = par(p['nu'], p.get('nu_slope', 0.0))
+                kw['gamma' + names[i]] = par(p['gamma'])
+                kw['h' + names[i]] = par(p['h'])
+                if p.get('frozen'):
+                    kw['frozen' + names[i]] = True
+                if p.get('nomut') and d == 2:
+                    kw['nomut' + names[i]] = True
+                others = [j for j in range(d) if j != i]
+                for j, m in zip(others, p['ms']):
+                    # a zero rate stays a plain constant: the frozen-population guard tests `m != 0` on the argument itself
+                    kw['m' + names[i] + names[j]] = par(m) if m != 0 else 0
+            kw['theta0'] = par(c['theta0'], c.get('theta_slope', 0.0))
+            f = [None, None, Integration.two_pops, Integration.three_pops, Integration.four_pops, Integration.five_pops][d]
+            res = f(phi, xx, c['T'], **kw)
+    finally:
+        Integration.timescale_factor = 1e-3
+        Integration.use_delj_trick = False
+    return res
+
+def driver(c):
+    xx = relayout(c['grid'], c.get('xlayout'))
+    phi = relayout(np.array(c['phi'], dtype=float).reshape(c['shape']), c.get('layout'))
+    res = np.asarray(integrate(phi, xx, c))
+    if list(res.shape) != list(c['shape']):
+        raise ValueError('result shape %r for input shape %r' % (res.shape, c['shape']))
+    return flat(res)
+
 def inject(c):
     d = len(c['shape'])
-    phi = np.array(c['phi'], dtype=float).reshape(c['shape']).copy()
-    xx = np.array(c['grid'], dtype=float)
+    phi = relayout(np.array(c['phi'], dtype=float).reshape(c['shape']), c.get('layout'))
+    xx = relayout(c['grid'], c.get('xlayout'))
     fr = c['frozen']; nm = c['nomut']
     if d == 1:
         Integration._inject_mutations_1D(phi, c['dt'], xx, c['theta0'])
@@ -22,7 +122,7 @@ def inject(c):
     else:
         f = getattr(Integration, '_inject_mutations_%dD' % d)
         f(phi, c['dt'], *([xx] * d), c['theta0'], *fr)
-    return [float(t) for t in phi.ravel()]
+    return flat(phi)
 
 def reject(c):
     d = len(c['shape'])
@@ -37,15 +137,36 @@ def reject(c):
     except ValueError as e:
         return 'ValueError'
 
+def manip(phi, xx, s):
+    if s['op'] == 'remove_pop':
+        return PhiManip.remove_pop(phi, xx, s['k'])
+    if s['op'] == 'filter_pops':
+        return PhiManip.filter_pops(phi, xx, s['keep'])
+    if s['op'] == 'reorder_pops':
+        return PhiManip.reorder_pops(phi, s['neworder'])
+    raise ValueError('unknown op %r' % (s['op'],))
+
 def remove(c):
-    d = len(c['shape'])
-    xx = np.array(c['grid'], dtype=float)
-    phi = np.array(c['phi'], dtype=float).reshape(c['shape'])
-    if c['op'] == 'remove_pop':
-        r = PhiManip.remove_pop(phi, xx, c['k'])
-    else:
-        r = PhiManip.filter_pops(phi, xx, c['keep'])
-    return [float(t) for t in np.asarray(r).ravel()], list(np.asarray(r).shape)
+    xx = relayout(c['grid'], c.get('xlayout'))
+    phi = relayout(np.array(c['phi'], dtype=float).reshape(c['shape']), c.get('layout'))
+    r = np.asarray(manip(phi, xx, c))
+    return flat(r), list(r.shape)
+
+def pipe(c):
+    """steps applied left to right on the evolving density; 'integrate' steps carry the driver fields.  Returns the final density, its
+    shape, and per step the memory description of what was handed on (for the replay / diagnosis only)."""
+    xx = relayout(c['grid'], c.get('xlayout'))
+    phi = relayout(np.array(c['phi'], dtype=float).reshape(c['shape']), c.get('layout'))
+    trace = []
+    for s in c['steps']:
+        if s['op'] == 'integrate':
+            phi = integrate(phi, xx, s)
+        else:
+            phi = manip(phi, xx, s)
+        a = np.asarray(phi)
+        trace.append({'op': s['op'], 'shape': list(a.shape), 'c_contiguous': bool(a.flags['C_CONTIGUOUS']), 'strides': [int(t) // 8 for t in a.strides]})
+    phi = np.asarray(phi)
+    return flat(phi), list(phi.shape), trace
 
 def main():
     cases = json.load(sys.stdin)
@@ -55,7 +176,7 @@ def main():
         try:
             k = c['kind']
             if k == 'driver':
-                rec['res'] = c02_impl.driver(c)
+                rec['res'] = driver(c)
             elif k == 'sweepmass':
                 rec['res'] = c02_impl.kernel(c)
             elif k == 'inject':
@@ -64,6 +185,10 @@ def main():
                 rec['res'] = reject(c)
             elif k == 'remove':
                 rec['res'], rec['shape'] = remove(c)
+            elif k == 'pipe':
+                rec['res'], rec['shape'], rec['trace'] = pipe(c)
+            else:
+                raise ValueError('unknown kind %r' % (k,))
         except Exception as e:
             rec['error'] = type(e).__name__ + ': ' + str(e)[:300]
         out.append(rec)
